@@ -77,12 +77,26 @@ def build_module(ch):
             data = data[:ln - z] + bytes(z)                                 # trailing zero bytes
         elif ch.below(6) == 0:
             data = bytes(ln)
+        elif ch.below(4) == 0:
+            data = pools.segment_text(ch, ln)                               # bytes that mean something inside a C literal
+        if ch.below(10) == 0:
+            big = pools.segment_big(ch, mn * 65536 - 64, s)
+            if big:
+                ln, data = big
+                off = ch.pick((0, 16, mn * 65536 - ln))
         m.datas.append(('active', ('i32.const', off), data))
     npas = ch.below(3)
     for s in range(npas):
         ln = ch.below(64)
         k = len(m.datas)
-        m.datas.append(('passive', None, bytes((0xc0 + s * 5 + i) & 0xff for i in range(ln))))
+        pdata = bytes((0xc0 + s * 5 + i) & 0xff for i in range(ln))
+        if ch.below(3) == 0:
+            pdata = pools.segment_text(ch, ln)
+        elif ch.below(8) == 0:
+            big = pools.segment_big(ch, 140000, s)
+            if big:
+                ln, pdata = big
+        m.datas.append(('passive', None, pdata))
         add(b'init%d' % k, (I32, I32, I32), (), [('local.get', 0), ('local.get', 1), ('local.get', 2), ('memory.init', k)],
             'init', (k, ln))
     # a store followed by a grow followed by a load in ONE function: contents must survive the realloc inside a body
@@ -396,11 +410,11 @@ def plan(tier, seed):
 
 def plan_histories(tier):
     if tier == 'quick':
-        ccs = ['gcc-O0', 'clang-O2', 'gcc-O2-gnu89', 'clang-O0', 'clang-O1-san', 'gcc-O1-san', 'clang-O2-uchar']
+        ccs = ['gcc-O0', 'clang-O2', 'gcc-O2-gnu89', 'clang-O0', 'clang-O1-san', 'gcc-O1-san', 'clang-O2-uchar', 'gcc-O0-c89']
         return [{'maker': 'c05_history', 'ncases': 25, 'ccs': ccs, 'nsteps': 120, 'shrink_budget': 25, 'reduce_budget': 30}
                 for _ in range(32)]
     ccs = ['gcc-O0', 'clang-O2', 'gcc-O2', 'clang-O0', 'gcc-O3', 'clang-O3', 'gcc-O0-gnu89', 'clang-O2-gnu89', 'clang-O1-san',
-           'gcc-O1-uchar', 'clang-O2-uchar']
+           'gcc-O1-uchar', 'clang-O2-uchar', 'gcc-O0-c89', 'clang-O2-c89']
     return [{'maker': 'c05_history', 'ncases': 250, 'ccs': ccs, 'nsteps': 300, 'shrink_budget': 40, 'reduce_budget': 40}
             for _ in range(64)]
 
